@@ -715,7 +715,39 @@ def run(rep: vlib.Reporter, tier: str, seed: int) -> None:
                     {"kind": "derived", "spec": fam[i][0], "oracle": fam[i][1], "rows": drecs[i]["rows"]})
         found = True
     dist["derived_side"] = {"requests": len(fam), "status": dstat, "compared": len(dterms), "disagreements": len(dbad)}
-    rep.count(len(recs) + len(drecs))
+    # family append_union (harness/c05_append.py): APPEND / UNION links end to end against rel_append / rel_union
+    from harness import c05_append
+    afam = c05_append.family(rng, big)
+    arecs = [one(s) for s in afam]
+    aterms, aidx = [], []
+    astat: Dict[str, int] = {}
+    for i, r in enumerate(arecs):
+        astat[r["status"]] = astat.get(r["status"], 0) + 1
+        if r["status"] == "ok" and r["rows"] is not None:
+            aidx.append(i)
+            aterms.append(term(afam[i], r["rows"]))
+    abad = set(aidx[k] for k in (vlib.run_cases("C05", "append_union", REQ, "chk_join", aterms, extra_defs=EXTRA, case_type=CASE_TY, shard=60)[0]
+                                 if aterms else []))
+    akf: Dict[str, int] = {}
+    for i, r in enumerate(arecs):
+        spec_a = afam[i]
+        dom = c05_append.kf_of(spec_a)
+        ok = r["status"] == "ok" and r["rows"] is not None and i not in abad
+        if ok:
+            continue
+        what = (f"{spec_a['links'][0]['jt']} link: " + ("the rows received by the consumer are not the appended / united source tables" if r["status"] == "ok"
+                else f"the request did not run ({r['status']}: {r.get('exc')})"))
+        replay = {"kind": "append", "spec": spec_a, "status": r["status"], "exc": r.get("exc"), "rows": r.get("rows")}
+        recorded = (dom in c05_append.RAISE and r["status"] == "raised" and c05_append.RAISE[dom] in str(r.get("exc"))) or \
+                   (dom == c05_append.KF_UNION_PYDICT and r["status"] == "ok")
+        if dom and recorded:
+            akf[dom] = akf.get(dom, 0) + 1
+            rep.finding(dom, what, replay)
+        else:
+            rep.finding(f"append-union:{json.dumps(spec_a, sort_keys=True)}", what + (f" (request in domain {dom}, but this is not the recorded failure)" if dom else ""), replay)
+            found = True
+    dist["append_union"] = {"requests": len(afam), "status": astat, "compared": len(aterms), "disagreements": len(abad), "in_recorded_domains": akf}
+    rep.count(len(recs) + len(drecs) + len(arecs))
     dist["dimensions"] = counters
     dist["equal_to_spec_by_dimension"] = correct_by
     rep.add("distribution", dist)
@@ -743,6 +775,13 @@ def replay(path: str) -> int:
     r = json.load(open(path))["replay"]
     install()
     spec = r["spec"]
+    if r.get("kind") == "append":
+        rec = one(spec)
+        print(json.dumps({k: rec.get(k) for k in ("status", "exc", "rows")}, indent=1, default=str))
+        if rec["status"] == "ok" and rec.get("rows") is not None:
+            bad, _ = vlib.run_cases("C05", "replay", REQ, "chk_join", [term(spec, rec["rows"])], extra_defs=EXTRA, case_type=CASE_TY)
+            print("rows received = rel_append / rel_union of the source tables:", not bad)
+        return 0
     if r.get("kind") == "derived":
         rec = one(spec)
         print(json.dumps({k: rec.get(k) for k in ("status", "exc", "rows")}, indent=1, default=str))
